@@ -5,6 +5,7 @@ import (
 	"bytes"
 	"fmt"
 	"io"
+	"strings"
 	"testing"
 	"unicode/utf8"
 
@@ -132,7 +133,7 @@ func c22RunReader(tb ev.TB, rec *ev.Rec, c *c22RCase, gen string) {
 	lastRead := ""   // kind of the immediately preceding successful consuming op
 	lastRuneSize := 0
 	var crossedRefill, longLine, unread, crStraddle, sawEOF, unreadAfterLine bool
-	stop := false
+	stop, stdLost := false, false
 	fail := func(step int, key, format string, args ...any) {
 		cc := *c
 		if step+1 < len(cc.Ops) {
@@ -157,6 +158,9 @@ func c22RunReader(tb ev.TB, rec *ev.Rec, c *c22RCase, gen string) {
 		streamKey := ""
 		var streamMsg string
 		bad := func(key, f string, a ...any) {
+			if stdLost && strings.Contains(key, "from-std") {
+				return
+			}
 			if streamKey == "" {
 				streamKey, streamMsg = key, fmt.Sprintf(f, a...)
 			}
@@ -302,14 +306,14 @@ func c22RunReader(tb ev.TB, rec *ev.Rec, c *c22RCase, gen string) {
 			cmpErr(e1, e2)
 			if !bytes.Equal(l1, next(len(l1))) {
 				bad("stream-corrupt-ReadLine", "ReadLine returned %x, stream continues %x", l1, next(len(l1)))
-			} else if !bytes.Equal(l1, l2) {
-				bad("differs-from-std-ReadLine", "ReadLine: bfe (%x,%v), std (%x,%v)", l1, p1, l2, p2)
-			} else if p1 != p2 {
+			} else if !bytes.Equal(l1, l2) || p1 != p2 {
 				// std changed since the Go 1.2 code bfe_bufio derives from: when the source delivers io.EOF
-				// together with the bytes that fill the buffer, old bufio reports "buffer full" (isPrefix) and EOF
-				// on the next call, new bufio reports the pending EOF first. Both deliver the same bytes.
-				if c.EOFData && len(l1) >= c.Buf-1 && pos+len(l1) >= len(S)-1 {
-					rec.Class("r-isprefix-at-eof-not-compared")
+				// together with the bytes that fill the buffer, old bufio reports "buffer full" first (isPrefix,
+				// a trailing CR kept back) and EOF on the next call; new bufio reports the pending EOF first.
+				// Both deliver the same stream; std is no longer in lock-step afterwards.
+				if c.EOFData && src.pos == len(S) && len(l2) >= c.Buf-1 && len(l1) >= c.Buf-1 {
+					rec.Class("r-full-buffer-at-eof-std-not-compared")
+					stdLost = true
 				} else {
 					bad("differs-from-std-ReadLine", "ReadLine: bfe (%x,%v), std (%x,%v)", l1, p1, l2, p2)
 				}
